@@ -27,17 +27,31 @@ pub fn scale_program(n_types: usize, n_vars: usize, n_stmts: usize) -> RProgram 
     }
     let d6 = arr(2, arr(2, arr(2, arr(2, arr(2, arr(2, tname("int")))))));
     decls.push(RDecl::Type { name: "D6".into(), ty: d6 });
+    let d9 = arr(2, arr(2, arr(2, arr(2, arr(2, arr(2, arr(2, arr(2, arr(2, tname("int"))))))))));
+    decls.push(RDecl::Type { name: "D9".into(), ty: d9 });
     let prm = |n: &str, r: bool, t: RType| RParam { is_ref: r, name: n.into(), ty: t };
     decls.push(RDecl::Proc {
         name: "six".into(),
-        params: vec![prm("a1", false, tname("int")), prm("a2", false, tname("int")), prm("a3", true, tname("int")), prm("a4", true, tname("T0")), prm("a5", true, tname("D6")), prm("a6", false, tname("int"))],
+        // (the signature is wider than 100 columns)
+        params: vec![
+            prm("first_parameter_a1", false, tname("int")),
+            prm("second_parameter_a2", false, tname("int")),
+            prm("third_parameter_a3", true, tname("int")),
+            prm("fourth_parameter_a4", true, tname("T0")),
+            prm("fifth_parameter_a5", true, tname("D6")),
+            prm("sixth_parameter_a6", false, tname("int")),
+        ],
         vars: vec![],
-        body: vec![RStmt::Assign(vname("a3"), bin(Op::Add, bin(Op::Add, evar("a1"), evar("a2")), evar("a6")))],
+        body: vec![RStmt::Assign(vname("third_parameter_a3"), bin(Op::Add, bin(Op::Add, evar("first_parameter_a1"), evar("second_parameter_a2")), evar("sixth_parameter_a6")))],
     });
     let mut vars: Vec<RVarDecl> = (0..n_vars).map(|i| RVarDecl { name: format!("v{}", i), ty: tname("int") }).collect();
     vars.push(RVarDecl { name: long_name.clone(), ty: tname("int") });
     vars.push(RVarDecl { name: "t0".into(), ty: tname("T0") });
     vars.push(RVarDecl { name: "d".into(), ty: tname("D6") });
+    vars.push(RVarDecl { name: "nine".into(), ty: tname("D9") });
+    for l in 1..=6 {
+        vars.push(RVarDecl { name: "s".repeat(l), ty: tname("int") });
+    }
     let v = |i: usize| format!("v{}", i % n_vars.max(1));
     let c = |i: usize| bin(Op::Lst, evar(&v(i)), eint(i as u32));
     let mut body: Vec<RStmt> = vec![];
@@ -45,7 +59,8 @@ pub fn scale_program(n_types: usize, n_vars: usize, n_stmts: usize) -> RProgram 
         let st = match i % 10 {
             3 => RStmt::Call("six".into(), vec![eint(i as u32), evar(&v(i)), evar(&v(i + 1)), evar("t0"), evar("d"), bin(Op::Mul, evar(&long_name), eint(2))]),
             7 => RStmt::Assign(idx(vname("t0"), eint((i % 2) as u32)), evar(&v(i))),
-            _ => RStmt::Assign(vname(&v(i)), bin(Op::Add, evar(&v(i + 1)), eint(i as u32))),
+            // (more than 48 parenthesised expressions in one document)
+            _ => RStmt::Assign(vname(&v(i)), bin(Op::Mul, RExpr::Paren(Arc::new(bin(Op::Add, evar(&v(i + 1)), eint(i as u32)))), eint(1))),
         };
         body.push(st);
     }
@@ -71,6 +86,22 @@ pub fn scale_program(n_types: usize, n_vars: usize, n_stmts: usize) -> RProgram 
         six_d = idx(six_d, eint((k % 2) as u32));
     }
     body.push(RStmt::Assign(six_d, evar(&long_name)));
+    let mut nine_d = vname("nine");
+    for k in 0..9 {
+        nine_d = idx(nine_d, eint((k % 2) as u32));
+    }
+    body.push(RStmt::Assign(nine_d, eint(9)));
+    // an assignment of some 370 columns: a sum of sixty blank character literals
+    let mut sum = RExpr::Int(Lit::Chr(' '));
+    for _ in 0..59 {
+        sum = bin(Op::Add, sum, RExpr::Int(Lit::Chr(' ')));
+    }
+    body.push(RStmt::Assign(vname(&v(1)), sum.clone()));
+    // ... and the same sum assigned to names of one to six letters, so that the blank inside a
+    // literal lands on every column modulo the period of the line
+    for l in 1..=6 {
+        body.push(RStmt::Assign(vname(&"s".repeat(l)), sum.clone()));
+    }
     decls.push(RDecl::Proc { name: "main".into(), params: vec![], vars, body });
     RProgram { decls }
 }
